@@ -49,12 +49,70 @@ def loop_lookups(prog, b, ix):
     return out
 
 
+def _counting_local(d):
+    """local number of `i` when d describes a counter that starts at 0 and is only ever incremented by one"""
+    d = panics._strip(d)
+    if not (isinstance(d, tuple) and d[0] == "multi" and len(d) > 3):
+        return None
+    alts, l = d[1], d[3]
+    if len(alts) != 2 or ("lit", 0) not in alts:
+        return None
+    inc = [a for a in alts if a != ("lit", 0)][0]
+    if inc[0] == "field" and inc[1][0] == "bin":
+        inc = inc[1]
+    if inc[0] == "bin" and inc[1].startswith("Add") and inc[3] == ("lit", 1) and inc[2][0] == "local" and inc[2][1] == l:
+        return l
+    return None
+
+
+def indexed_scans(prog, b, ix):
+    """Index form of the key lookup: `let mut i = 0; while i < self.data.len() { let item = &self.data[i]; if <key test> { .. i .. ; break } i += 1 }`.
+    Returns [(index_block, counter local, bound switch block)]: the scan visits self.data[0], [1], .. in order until the bound test fails."""
+    out = []
+    for blk, t in b.calls():
+        if "Index" not in (t.get("callee") or "") or len(t["args"]) < 2:
+            continue
+        if not _over_data(describe(prog, b, t["args"][0]), ix):
+            continue
+        l = _counting_local(describe(prog, b, t["args"][1]))
+        if l is None:
+            continue
+        # dominated by `i < len(self.data)`
+        bound = None
+        for s_, lab, dd, info in core.guards_dominating(prog, b, blk):
+            dd = panics._strip(dd)
+            if lab == "true" and dd[0] == "bin" and dd[1] == "Lt" and _counting_local(dd[2]) == l and dd[3][0] == "call" and dd[3][1].endswith("::len") and _over_data(dd[3], ix):
+                bound = s_
+        if bound is not None and blk in b.reachable(b.succs(blk)):
+            out.append((blk, l, bound))
+    return out
+
+
+def scan_keys(prog, b, ix, at_block, scans):
+    """key fields for which `self.data[i].<field> == <parameter>` is known at `at_block`, i being the counter of one of the scans"""
+    keys = set()
+    counters = {l for _, l, _ in scans}
+    for (a, op, r) in panics.cmp_facts(prog, b, at_block):
+        if op != "==":
+            continue
+        for x, y_ in ((a, r), (r, a)):
+            for fname in ("route", "host"):
+                item_side = desc_contains(x, lambda z: z[0] == "field" and z[2] == ix["item_" + fname] and
+                                          desc_contains(z[1], lambda w: w[0] == "call" and "Index" in w[1] and len(w[2]) > 1 and _counting_local(w[2][1]) in counters))
+                par_side = desc_contains(y_, lambda z: z[0] == "param" and z[2] == fname) and not desc_contains(y_, lambda z: z[0] == "field")
+                if item_side and par_side:
+                    keys.add(fname)
+    return keys
+
+
 def from_lookup(prog, b, ix, d):
     """Does the value description derive from the result of the key lookup (position/find call, or the loop form)?"""
     if desc_contains(d, lambda y: y[0] == "call" and core.re.search(r"::(position|find)$", y[1]) is not None):
         return True
     nbs = [nb for nb, _, _, _ in loop_lookups(prog, b, ix)]
-    return bool(nbs) and desc_contains(d, lambda y: y[0] == "call" and len(y) > 3 and y[3] in nbs)
+    if bool(nbs) and desc_contains(d, lambda y: y[0] == "call" and len(y) > 3 and y[3] in nbs):
+        return True
+    return _counting_local(d) in {l for _, l, _ in indexed_scans(prog, b, ix)} and _counting_local(d) is not None
 
 
 def lookup_none_edges(prog, b, ix):
@@ -63,6 +121,10 @@ def lookup_none_edges(prog, b, ix):
     for blk, t2 in b.calls_to(r"::(position|find)$"):
         for e in some_edge_of(prog, b, blk, "None"):
             edges.add(e)
+    for _, _, bound in indexed_scans(prog, b, ix):
+        info = core.switch_info(prog, b, bound)
+        if info and "false" in info.get("edges", {}):
+            edges.add((bound, info["edges"]["false"]))
     res_locals = set(l for _, _, l, _ in loop_lookups(prog, b, ix))
     for s_ in range(len(b.blocks)):
         t = b.term(s_)
@@ -95,8 +157,21 @@ def key_predicate(chk, prog, fn, ix):
         return None
     pos = [(blk, t) for blk, t in b.calls_to(r"Iterator>?::(position|find|rposition|find_map)$|Iterator::(position|find)$")]
     loops = loop_lookups(prog, b, ix) if not pos else []
-    chk.ob("R1.key", fn, "one lookup over self.data", len(pos) == 1 or (not pos and len(set(nb for nb, _, _, _ in loops)) == 1), f"{len(pos)} iterator lookups, {len(loops)} loop lookups")
+    scans = indexed_scans(prog, b, ix) if not pos and not loops else []
+    chk.ob("R1.key", fn, "one lookup over self.data", len(pos) == 1 or (not pos and len(set(nb for nb, _, _, _ in loops)) == 1) or (not pos and not loops and len(set(l for _, l, _ in scans)) == 1),
+           f"{len(pos)} iterator lookups, {len(loops)} loop lookups, {len(scans)} indexed scans")
     facts = None
+    if scans:
+        # the sites that use the found index: queue removals / Some(..) results inside the scan
+        uses = [blk for blk, t in b.calls_to(r"VecDeque::<T, A>::(remove|swap_remove_back|swap_remove_front)$") if _counting_local(describe(prog, b, t["args"][1])) is not None]
+        uses += [bi for bi in core.ok_return_blocks(b, "Some")]
+        keysets = [scan_keys(prog, b, ix, u, scans) for u in uses]
+        keys = set.intersection(*keysets) if keysets else set()
+        chk.ob("R1.key", fn, "the lookup scans all of self.data front to back", True, "index counted up from 0 while it is below self.data.len()")
+        for fname in ("route", "host"):
+            chk.ob("R1.key", fn, f"the predicate compares item.{fname} with the `{fname}` parameter", fname in keys,
+                   f"the lookup in {fn.split('::')[-1]} ignores `{fname}`: another entry's data can be returned / replaced", where=b.file)
+        facts = keys
     if loops:
         keys = set.intersection(*[k for _, _, _, k in loops])
         chk.ob("R1.key", fn, "the lookup scans all of self.data front to back", True, "loop over self.data.iter()")
